@@ -160,6 +160,20 @@ ROUND10 = {
     'C18': " Round 10: the facet key normaliser lists the facet's own names in a positive membership test.",
 }
 
+# obligations added in round 11 (and by the mutation sweeps of mq.py, filter.py lifecycle, util.py)
+ROUND11 = {
+    'C01': " Round 11: the id of a set is consumed before its first data frame goes out (a publish that fails half way does not share its id with the next set).",
+    'C02': " Round 11: the sense of the recv_state hand-over in MQ is read; the position of the id store relative to the frames is no longer demanded.",
+    'C03': " Round 11: MQ.recv hands on what the receiver returned.",
+    'C04': " Round 11: the send wait gives a frame up only when its budget is used up; an error raised out of recv() after the sets were found complete drops them first (no wedged join whose repeated requests keep every source publishing).",
+    'C05': " Round 11: the ephemeral flag of a client record is taken from the request that carries it, an out-of-band refresh keeps it.",
+    'C08': " Round 11: every endpoint that can receive an exit announcement (the dedicated metrics output included) is read while the filter waits; a partly built MQ is torn down before the error leaves; whatever makes run() raise is announced as an error; exit() in shutdown() after an error in the loop leaves the run an error run.",
+    'C13': " Round 11: 'end' is a record boundary - a reader attaching at the end of a file is never parked inside a record that is being written.",
+    'C16': " Round 11: nothing shortens a facet key; the meters a client records through belong to the provider it built (its own exporter and allow-list).",
+    'C17': " Round 11: the transforms of a topic reach the topics they name and the result of the chain is what is stored.",
+    'C18': " Round 11: the key stored in the facet is the key that passed the reserved-name test, and names the facet's base class defines are reserved too.",
+}
+
 NOT_APPLICABLE = {
     'C11': 'Every clause is an equality between values computed by string parsing over an unbounded grammar; there is no renderer to pair with the parsers and the only structural facts in reach are already caught by the existing test_normalize_config tests, so a static proxy would detect nothing new (DESIGN.md §5).',
 }
@@ -174,7 +188,7 @@ def main():
         if pid not in reg:
             continue
         tech, text, ref, nd = CLAIMS[pid]
-        text += ROUND6.get(pid, '') + ROUND7.get(pid, '') + ROUND8.get(pid, '') + ROUND9.get(pid, '') + ROUND10.get(pid, '')
+        text += ROUND6.get(pid, '') + ROUND7.get(pid, '') + ROUND8.get(pid, '') + ROUND9.get(pid, '') + ROUND10.get(pid, '') + ROUND11.get(pid, '')
         checks.append({
             'property_id': pid,
             'quick_cmd': f'./check {pid} --tier quick',
